@@ -223,7 +223,11 @@ class Interp:
                 return self.ev(e[1], env)
             except Throw as th:
                 ee = Env(env)
-                if e[2] != "_":
+                if isinstance(e[2], (tuple, list)):
+                    # refutable catch pattern: a thrown value it does not match travels on unchanged (same value, nothing bound)
+                    if not self.match(e[2], th.v, ee):
+                        raise th
+                elif e[2] != "_":
                     ee.declare(e[2], th.v)
                 return self.ev(e[3], ee)
         if t == "switch":
@@ -231,27 +235,8 @@ class Interp:
             v = self.ev(e[1], env)
             for pat, body in e[2]:
                 ee = Env(env)
-                if pat[0] == "plit":
-                    if isinstance(v, (Closure, Builtin, ErrVal)):
-                        raise Skip()
-                    if not truthy(self.binop("==", v, pat[1])):
-                        continue
-                elif pat[0] == "pname":
-                    ee.declare(pat[1], v)
-                elif pat[0] == "plistl":      # [names..., literal]: names bound so far are discarded with the arm's scope when the literal fails
-                    if not isinstance(v, list):
-                        raise Skip()
-                    if len(v) != len(pat[1]) + 1 or any(isinstance(x_, (Closure, Builtin, ErrVal)) for x_ in v) or not truthy(self.binop("==", v[-1], pat[2])):
-                        continue
-                    for n_, x_ in zip(pat[1], v):
-                        ee.declare(n_, x_)
-                elif pat[0] == "plist":
-                    if not isinstance(v, list) or len(v) != len(pat[1]):
-                        if isinstance(v, (str, ErrVal)):
-                            raise Skip()
-                        continue
-                    for n_, x_ in zip(pat[1], v):
-                        ee.declare(n_, x_)
+                if not self.match(pat, v, ee):
+                    continue
                 return self.ev(body, ee)
             raise Throw(ERR)
         if t == "and":
@@ -384,6 +369,36 @@ class Interp:
             self.depth -= 1
 
     # ------------------------------------------------------------ for loops
+    def match(self, pat, v, ee):
+        """does v match the pattern? names are declared in ee (discarded by the caller when the match fails)"""
+        if pat[0] == "plit":
+            if isinstance(v, (Closure, Builtin, ErrVal)):
+                raise Skip()
+            return bool(truthy(self.binop("==", v, pat[1])))
+        if pat[0] == "pname":
+            ee.declare(pat[1], v)
+            return True
+        if pat[0] == "plistl":      # [names..., literal]: names bound so far are discarded with the arm's scope when the literal fails
+            if isinstance(v, int) and not isinstance(v, bool):
+                return False
+            if not isinstance(v, list):
+                raise Skip()
+            if len(v) != len(pat[1]) + 1 or any(isinstance(x_, (Closure, Builtin, ErrVal)) for x_ in v) or not truthy(self.binop("==", v[-1], pat[2])):
+                return False
+            for n_, x_ in zip(pat[1], v):
+                ee.declare(n_, x_)
+            return True
+        if pat[0] == "plist":
+            if not isinstance(v, list) or len(v) != len(pat[1]):
+                if isinstance(v, (str, ErrVal)):
+                    raise Skip()
+                return False
+            for n_, x_ in zip(pat[1], v):
+                ee.declare(n_, x_)
+            return True
+        return True
+
+
     def ev_for(self, e, env):
         clauses, body = e[1], e[2]
         kind = body[0]
@@ -710,13 +725,13 @@ def render(e):
         return "(return)" if e[1] is None else "(return %s)" % render(e[1])
     if t == "throw":
         return "(throw %s)" % render(e[1])
+    def rp(p):
+        if p[0] == "plistl":
+            return "[%s]" % ", ".join(list(p[1]) + [str(p[2])])
+        return str(p[1]) if p[0] == "plit" else (p[1] if p[0] == "pname" else ("_" if p[0] == "pwild" else "[%s]" % ", ".join(p[1])))
     if t == "try":
-        return "(try %s catch %s -> %s)" % (render(e[1]), e[2], render(e[3]))
+        return "(try %s catch %s -> %s)" % (render(e[1]), rp(e[2]) if isinstance(e[2], (tuple, list)) else e[2], render(e[3]))
     if t == "switch":
-        def rp(p):
-            if p[0] == "plistl":
-                return "[%s]" % ", ".join(list(p[1]) + [str(p[2])])
-            return str(p[1]) if p[0] == "plit" else (p[1] if p[0] == "pname" else ("_" if p[0] == "pwild" else "[%s]" % ", ".join(p[1])))
         return "(switch (%s) %s)" % (render(e[1]), " ".join("case %s -> %s" % (rp(p), render(b)) for p, b in e[2]))
     if t in ("and", "or", "coalesce"):
         return "(%s %s %s)" % (render(e[1]), t, render(e[2]))
